@@ -15,7 +15,8 @@ func init() {
 	register(&Rule{
 		ID: "PROG-1",
 		Doc: "fix-point recursions make progress: in a recursive function whose recursive call is guarded by a boolean flag, every place that sets the flag also updates a cell M[k] of the iterated map, under a STRICT guard old M[k] < E (or E > old M[k]), with a new value that is structurally E plus terms that are sizes or spacings (non-negative by the property's hypothesis) - " +
-			"so every repetition strictly increases a coordinate; a non-strict guard lets the recursion repeat without changing anything (stack overflow)",
+			"so every repetition strictly increases a coordinate; a non-strict guard lets the recursion repeat without changing anything (stack overflow). " +
+			"Separation clause: the compared bound E is structurally the stored value itself (left neighbour + its block width + spacing), so that the fix-point - no guard fires - implies that neighbours are at least width + spacing apart",
 		Floor: 2,
 		Ctl:   []string{"internal__phase4__prog1.go.txt"},
 		Run:   runProg1,
@@ -120,6 +121,7 @@ func runProg1(m *Model, r *RuleResult) {
 				key := fmt.Sprintf("fixpoint:%s:setter#%d", funcKey(f), n)
 				pos := m.Pos(b.Instrs[0].Pos())
 				ok, why := false, "the flag is set without an update of the iterated map under a strict comparison"
+				sepOK, sepWhy := false, ""
 				for _, d := range controlDeps(b) {
 					bo, isBin := d.If.Cond.(*ssa.BinOp)
 					if !isBin || d.Branch != 0 {
@@ -152,8 +154,10 @@ func runProg1(m *Model, r *RuleResult) {
 						flattenSum(mu.Value, &addends, 0)
 						if sameSSAExpr(mu.Value, e0, 0) {
 							ok = true
+							sepOK = true
 							continue
 						}
+						sepWhy = "the guard compares the old coordinate with " + e0.String() + " but the update stores " + mu.Value.String()
 						hasE0 := false
 						rest := true
 						for _, a := range addends {
@@ -184,6 +188,14 @@ func runProg1(m *Model, r *RuleResult) {
 				}
 				if ok {
 					r.add(Obligation{Key: key, Pos: pos, Desc: "the repetition flag is set only together with a strict increase of a coordinate", Verdict: "holds", Control: ctl})
+					// separation clause: at the fix-point no guard fires, so the guards must be as strong as the separation the updates
+					// establish: the compared bound has to be the very value that is stored (left node + its width + spacing)
+					if sepOK {
+						r.add(Obligation{Key: key + ":separation", Pos: pos, Desc: "the overlap test compares with exactly the position it then enforces, so the fix-point implies the separation", Verdict: "holds", Control: ctl})
+					} else {
+						r.add(Obligation{Key: key + ":separation", Pos: pos, Desc: "the overlap test must be as strong as the separation it enforces", Verdict: "violation",
+							Detail: sepWhy + ": the recursion stops as soon as the nodes are merely in order, so neighbours can remain closer than width + spacing (overlapping nodes)", Control: ctl})
+					}
 				} else {
 					r.add(Obligation{Key: key, Pos: pos, Desc: "every repetition of the fix-point must strictly increase a coordinate", Verdict: "violation",
 						Detail: why + " (" + strings.TrimSpace(funcKey(f)) + ")", Control: ctl})
